@@ -14,7 +14,14 @@ func (in *Interp) stdIntrinsic2(fn *ssa.Function, name string, args []Value) (Va
 	if v, ok := in.bufIntrinsic(name, args); ok {
 		return v, true
 	}
+	if v, ok := in.bigIntrinsic(name, args); ok {
+		return v, true
+	}
 	switch name {
+	case "encoding/binary.Write":
+		return in.binaryWrite(args), true
+	case "encoding/binary.Read":
+		return in.binaryRead(args), true
 	case "math.Ceil", "math.Floor":
 		r := bitsToReal(args[0].(*Term))
 		if r == nil {
@@ -342,4 +349,143 @@ func (in *Interp) stringToRunes(s *StrV) Value {
 func (in *Interp) runesToString(s *SliceV) Value {
 	in.unsupported("string([]rune)")
 	return nil
+}
+
+// byteOrderIsLittle decides which ByteOrder value the interface holds.
+func (in *Interp) byteOrderIsLittle(o Value) bool {
+	iv, _ := o.(*IfaceV)
+	if iv == nil {
+		in.goPanic("nil binary.ByteOrder")
+	}
+	switch iv.typ.String() {
+	case "encoding/binary.littleEndian":
+		return true
+	case "encoding/binary.bigEndian":
+		return false
+	}
+	in.unsupported("byte order %s", iv.typ)
+	return false
+}
+
+func scalarBytes(t *Term, little bool) []*Term {
+	n := t.w / 8
+	bs := make([]*Term, n)
+	for i := 0; i < n; i++ {
+		b := Extract(t, 8*i+7, 8*i)
+		if little {
+			bs[i] = b
+		} else {
+			bs[n-1-i] = b
+		}
+	}
+	return bs
+}
+
+// binaryWrite models encoding/binary.Write(w io.Writer, order, data) for the
+// fixed-size values the library passes: integers, floats (bit patterns), bools
+// and byte slices; anything else is the documented "invalid type" error.
+func (in *Interp) binaryWrite(args []Value) Value {
+	w, _ := args[0].(*IfaceV)
+	little := in.byteOrderIsLittle(args[1])
+	data, _ := args[2].(*IfaceV)
+	errInvalid := in.errIface(&ErrObj{format: "binary.Write: some values are not fixed-sized"})
+	if data == nil {
+		return errInvalid
+	}
+	var out *SliceV
+	switch v := data.val.(type) {
+	case *Term:
+		t := v
+		switch {
+		case t.w == SortInt:
+			return errInvalid // int has no fixed size
+		case t.w == 0:
+			t = Ite(t, BV(8, 1), BV(8, 0))
+		case t.w == SortReal:
+			in.unsupported("binary.Write of a computed float")
+		}
+		node := zeroArr(8)
+		for i, b := range scalarBytes(t, little) {
+			node = node.Store(IX(int64(i)), b)
+		}
+		n := IX(int64(t.w / 8))
+		out = &SliceV{obj: &ArrObj{node: node, ew: 8}, off: IX(0), len: n, cap: n}
+	case *SliceV:
+		if v.obj.ew != 8 {
+			in.unsupported("binary.Write of a non-byte slice")
+		}
+		out = v
+	default:
+		return errInvalid
+	}
+	res := in.invoke(w, "Write", out).(TupleV)
+	if e, _ := res[1].(*IfaceV); e != nil {
+		return e
+	}
+	return (*IfaceV)(nil)
+}
+
+// binaryRead models encoding/binary.Read(r io.Reader, order, data) for pointers
+// to fixed-size scalars: io.EOF when nothing is left, io.ErrUnexpectedEOF for a
+// short read (io.ReadFull contract).
+func (in *Interp) binaryRead(args []Value) Value {
+	r, _ := args[0].(*IfaceV)
+	little := in.byteOrderIsLittle(args[1])
+	data, _ := args[2].(*IfaceV)
+	if data == nil {
+		return in.errIface(&ErrObj{format: "binary.Read: invalid type"})
+	}
+	ptr, ok := data.val.(*PtrV)
+	pt, ok2 := data.typ.(*types.Pointer)
+	if !ok || !ok2 || !isScalar(pt.Elem()) || width(pt.Elem()) == SortInt {
+		return in.errIface(&ErrObj{format: "binary.Read: invalid type"})
+	}
+	w := width(pt.Elem())
+	if w == 0 {
+		w = 8
+	}
+	n := w / 8
+	win := &SliceV{obj: &ArrObj{node: zeroArr(8), ew: 8}, off: IX(0), len: IX(int64(n)), cap: IX(int64(n))}
+	got := IX(0)
+	// io.ReadFull
+	for it := 0; ; it++ {
+		if it > n+2 {
+			in.unsupported("binary.Read: reader makes no progress")
+		}
+		part := &SliceV{obj: win.obj, off: got, len: IArith("-", IX(int64(n)), got), cap: IArith("-", IX(int64(n)), got)}
+		res := in.invoke(r, "Read", part).(TupleV)
+		got = IArith("+", got, res[0].(*Term))
+		if in.branch(ICmp("<=", IX(int64(n)), got)) {
+			break
+		}
+		if e, _ := res[1].(*IfaceV); e != nil {
+			eof := in.load(&PtrV{cell: in.stdGlobal("io", "EOF")}).(*IfaceV)
+			if in.valEq(e, eof).IsTrue() {
+				if in.branch(Eq(got, IX(0))) {
+					return eof
+				}
+				return in.load(&PtrV{cell: in.stdGlobal("io", "ErrUnexpectedEOF")})
+			}
+			return e
+		}
+	}
+	var v *Term
+	for i := 0; i < n; i++ {
+		k := i
+		if !little {
+			k = n - 1 - i
+		}
+		b := win.obj.node.Read(IX(int64(k)))
+		if v == nil {
+			v = ZExt(b, w)
+		} else {
+			v = Bin("bvor", v, Bin("bvshl", ZExt(b, w), BV(w, int64(8*i))))
+		}
+	}
+	if width(pt.Elem()) == 0 {
+		in.store(ptr, Not(Eq(v, BV(8, 0))))
+	} else {
+		in.store(ptr, v)
+	}
+	return (*IfaceV)(nil)
 }
